@@ -1,4 +1,5 @@
 import DW.Lemmas.Fields
+import DW.Fmt
 
 /-!
 # C10 — Debug output matches the standard derive, minus skipped fields
@@ -9,7 +10,12 @@ with the item's or variant's name, one `field` call per field not skipped for
 `Debug` (with its name for braced shapes), then `finish`, or
 `finish_non_exhaustive` iff the shape is braced and some field is skipped.
 `C10_names`: the name literals are the identifiers without `r#`.
-The text `core::fmt` renders from these calls is `core`'s (validated by B).
+`C10_text` (round 7): the text. `DW/Fmt.lean` models `core::fmt`'s `DebugStruct` / `DebugTuple` builders as the state
+machines of `library/core/src/fmt/builders.rs` (both modes, `PadAdapter` indentation) and proves that they print the
+closed forms of std's derive (`Fmt.render_struct`, `Fmt.render_tuple`); composed with `C10_transcript`, what `{:?}` and
+`{:#?}` print for a value of a derived type is `Fmt.specDebugText`: the name, the fields not skipped for `Debug` in the
+style of the shape, and `..` iff the shape is braced and a field is skipped. The model of the builders is tied to the
+real `core` by B (the driver prints the rendered text; the leaf values' own text is substituted by the harness).
 -/
 
 namespace DW
@@ -131,5 +137,36 @@ theorem C10_transcript (it : Item) (cx : SemCtx α) (hwf : it.WF)
         evalStmts, evalList, hf, applyFn, Out.bind_ok, matchPat, hloop]
       simp [eval, evalList, hb, hf, hloop, applyFn, Out.finish, List.append_assoc]
   | _ => exact ha.elim
+
+/-- **The printed text.** Formatting a value with `{:?}` (`pretty = false`) or `{:#?}` (`pretty = true`) performs
+formatter calls that `core::fmt`'s builders render to `Fmt.specDebugText`: what std's derive prints for the same data
+with the fields skipped for `Debug` removed, plus `..` for braced shapes that omit a field. `leaf`: the fields' own
+`Debug` text; `hn`: identifiers are not empty. -/
+theorem C10_text (it : Item) (cx : SemCtx α) (hwf : it.WF) (hnu : ∀ d ∈ it.variants, d.shape ≠ .union)
+    (a : Val α) (ha : WfVal it a) (pretty : Bool) (leaf : α → String)
+    (hn : ∀ k, (it.strText (.dataName k)).isEmpty = false) :
+    ∃ log, runMethod cx (debugMethodBody it) a none = .ok (.unit, log) ∧
+      Fmt.renderLog pretty it.strText leaf log = Fmt.specDebugText pretty it leaf a ∧
+      (Fmt.specDebugText pretty it leaf a).isSome = true := by
+  refine ⟨specDebugLog it a, C10_transcript it cx hwf hnu a ha, ?_⟩
+  cases a with
+  | adt k fs =>
+    obtain ⟨d, hd, _, _⟩ := ha
+    have hu := hnu d (List.mem_of_getElem? hd)
+    refine ⟨Fmt.renderLog_spec pretty it leaf k fs d hd hu (hn k), ?_⟩
+    simp only [Fmt.specDebugText, hd]
+    cases hs : d.shape <;> simp_all
+  | _ => exact ha.elim
+
+/-- A worked instance of the builders' model: two named fields, one of them printing two lines, pretty and compact,
+with and without `..`. -/
+example :
+    Fmt.structText false "A" [("a", "1"), ("b", "2")] false = "A { a: 1, b: 2 }" ∧
+    Fmt.structText false "A" [("a", "1")] true = "A { a: 1, .. }" ∧
+    Fmt.structText false "A" [] true = "A { .. }" ∧
+    Fmt.structText true "A" [("a", "B {\n    x: 1,\n}")] true = "A {\n    a: B {\n        x: 1,\n    },\n    ..\n}" ∧
+    Fmt.tupleText false "A" ["1", "2"] = "A(1, 2)" ∧
+    Fmt.tupleText true "A" ["1"] = "A(\n    1,\n)" := by
+  refine ⟨?_, ?_, ?_, ?_, ?_, ?_⟩ <;> decide
 
 end DW
